@@ -23,6 +23,11 @@ pub struct RepRun {
     stale_undo: Option<Vec<Operation>>,
     /// the generator just made a task look expirable (or nearly so): expire before it changes again
     expire_next: bool,
+    /// also generate commits of several megabytes (more than SQLite's page cache holds: dirty pages
+    /// reach the database file before the commit)
+    pub big: bool,
+    /// lines the generator has decided on in advance
+    script: std::collections::VecDeque<String>,
     /// this case may commit operations with untrue old values / invalid operations
     pub wild: bool,
 }
@@ -151,6 +156,8 @@ impl RepRun {
             stats: HashMap::new(),
             stale_undo: None,
             expire_next: false,
+            script: Default::default(),
+            big: false,
             wild: false,
         }
     }
@@ -338,6 +345,30 @@ impl RepRun {
             self.expire_next = false;
             return "E".into();
         }
+        if let Some(l) = self.script.pop_front() {
+            return l;
+        }
+        if self.big && rng.chance(1, 10) {
+            return self.gen_big_batch(rng);
+        }
+        if rng.chance(1, 30) {
+            // the replica returns to empty: every task deleted and the deletions synchronized (nothing
+            // is left in storage), then it synchronizes again — and must stay empty, whatever snapshot
+            // the server holds from earlier
+            let cur = self.tasks();
+            if !cur.is_empty() {
+                let mut ids: Vec<(u128, TaskMap)> = cur.into_iter().map(|(u, t)| (u.as_u128(), t)).collect();
+                ids.sort_by_key(|x| x.0);
+                let parts: Vec<String> = ids.iter().map(|(u, t)| format!("delete {} {}", u, fmt_old_map(t))).collect();
+                self.script.push_back("Y".into());
+                self.script.push_back("Y".into());
+                if rng.chance(1, 2) {
+                    self.script.push_back(format!("W {}", rng.below(2)));
+                    self.script.push_back("Y".into());
+                }
+                return format!("X {} ; {}", parts.len(), parts.join(" ; "));
+            }
+        }
         let roll = rng.below(100);
         if roll < 8 {
             self.expire_next = rng.chance(1, 2);
@@ -362,6 +393,44 @@ impl RepRun {
         } else {
             "Y".into()
         }
+    }
+
+    /// one commit of 2–4 MB: long values for several tasks (a run of one character, written `~n~hex`)
+    fn gen_big_batch(&mut self, rng: &mut Rng) -> String {
+        fn tok(s: &Option<String>) -> String {
+            match s {
+                None => "-".into(),
+                Some(s) if s.len() > 1000 && s.bytes().all(|b| b == s.as_bytes()[0]) => {
+                    format!("~{}~{:02x}", s.len(), s.as_bytes()[0])
+                }
+                Some(s) => enc_str(s),
+            }
+        }
+        let cur = self.tasks();
+        let mut parts = vec!["undo".to_string()];
+        let n = 4 + rng.below(3);
+        let ch = *rng.pick(&[b'x', b'y', b'z']);
+        for i in 0..n {
+            let un = 1 + (rng.below(8) + i) % 8;
+            let u = uuid_of(un as u128);
+            let key = *rng.pick(&["k", "description"]);
+            let old = match cur.get(&u) {
+                Some(t) => t.get(key).cloned(),
+                None => {
+                    if !parts.iter().any(|p| p == &format!("create {}", un)) {
+                        parts.push(format!("create {}", un));
+                    }
+                    None
+                }
+            };
+            // (the same task and key twice in one batch would need the first new value as old value)
+            if parts.iter().any(|p| p.starts_with(&format!("update {} {} ", un, enc_str(key)))) {
+                continue;
+            }
+            let len = 400_000 + rng.below(300_000) as usize;
+            parts.push(format!("update {} {} {} ~{}~{:02x} 100 0", un, enc_str(key), tok(&old), len, ch));
+        }
+        format!("X {} ; {}", parts.len(), parts.join(" ; "))
     }
 
     /// an accurate batch that makes one existing (or new) task look long deleted (or nearly so)
